@@ -57,6 +57,22 @@ impl Agenda {
     /// Acquire handle to next propagator to run, removing it from the [`Agenda`].
     #[inline]
     pub fn pop(&mut self) -> Option<PropId> {
+        // Verification hook H3: seeded pop order
+        #[cfg(selen_verif)]
+        if let Some(seed) = crate::verif_hooks::agenda_seed() {
+            if !self.q.is_empty() {
+                let len = self.q.len() as u64;
+                let first = self.q[0].0 as u64;
+                let idx = seed
+                    .wrapping_mul(6364136223846793005)
+                    .wrapping_add(len.wrapping_mul(7))
+                    .wrapping_add(first.wrapping_mul(13))
+                    % len;
+                let p = self.q.remove(idx as usize)?;
+                self.set_scheduled(p, false);
+                return Some(p);
+            }
+        }
         // Pop scheduled propagators in FIFO order to avoid starvation
         let p = self.q.pop_front()?;
 
